@@ -1022,6 +1022,63 @@ fn rov_use_replay() {
                 if seen != routes.len() && bad.len() < 6 {
                     bad.push(format!("{{\"kind\":\"api\",\"what\":\"{} of {} inserted paths listed\"}}", seen, routes.len()));
                 }
+                // per-cache reset through the manager: the cache's VRPs are replaced by the new snapshot - an empty one or one
+                // VRP - and nobody else's are touched; then the old set is put back the same way
+                let vrps: Vec<(String, u32, u32, u32, u32)> = t[2..]
+                    .iter()
+                    .map(|v| {
+                        let f: Vec<&str> = v.split(':').collect();
+                        (f[0].to_string(), f[1].parse().unwrap(), f[2].parse().unwrap(), f[3].parse().unwrap(), f[4].parse().unwrap())
+                    })
+                    .collect();
+                let mk = |c: &str, len: u32, val: u32, m: u32, a: u32| {
+                    let (addr, mask) = rov_embed(v6, off, len, val);
+                    (packet::IpNet::new(addr, mask), Arc::new(table::Roa::new((off + m) as u8, rov_asn(a), caches[c].clone())))
+                };
+                let contents = |tm: &TableManager| {
+                    let mut v: Vec<String> = tm
+                        .collect_roa(fam)
+                        .iter()
+                        .map(|(net, roa)| {
+                            let who = caches.iter().find(|(_, a)| Arc::ptr_eq(a, &roa.source)).map(|(k, _)| k.clone()).unwrap_or_else(|| "?".into());
+                            format!("{}/{}/{}/{}", who, net, roa.max_length, roa.as_number)
+                        })
+                        .collect();
+                    v.sort();
+                    v
+                };
+                let want = |set: &[(String, u32, u32, u32, u32)]| {
+                    let mut v: Vec<String> = set
+                        .iter()
+                        .map(|(c, len, val, m, a)| {
+                            let (addr, mask) = rov_embed(v6, off, *len, *val);
+                            format!("{}/{}/{}/{}", c, packet::IpNet::new(addr, mask), off + m, rov_asn(*a))
+                        })
+                        .collect();
+                    v.sort();
+                    v.dedup();
+                    v
+                };
+                for c in ["k1", "k2"] {
+                    for snap in [vec![], vec![(c.to_string(), 1u32, 1u32, 2u32, 1u32)]] {
+                        tm.rpki_reset(caches[c].clone(), snap.iter().map(|(c, l, v, m, a)| mk(c, *l, *v, *m, *a)).collect());
+                        nevals += 1;
+                        let mut exp: Vec<(String, u32, u32, u32, u32)> = vrps.iter().filter(|v| v.0 != c).cloned().collect();
+                        exp.extend(snap.iter().cloned());
+                        let (got, wanted) = (contents(&tm), want(&exp));
+                        if got != wanted && bad.len() < 6 {
+                            bad.push(format!(
+                                "{{\"kind\":\"reset\",\"cache\":\"{}\",\"snapshot_size\":{},\"expected\":{:?},\"actual\":{:?}}}",
+                                c,
+                                snap.len(),
+                                wanted,
+                                got
+                            ));
+                        }
+                        let back: Vec<(String, u32, u32, u32, u32)> = vrps.iter().filter(|v| v.0 == c).cloned().collect();
+                        tm.rpki_reset(caches[c].clone(), back.iter().map(|(c, l, v, m, a)| mk(c, *l, *v, *m, *a)).collect());
+                    }
+                }
                 if !bad.is_empty() {
                     writeln!(out, "{{\"i\":{},\"emb\":\"{}{}\",\"line\":\"{}\",\"bad\":[{}]}}", idx, if v6 { "v6/" } else { "v4/" }, off, line, bad.join(",")).unwrap();
                 }
